@@ -24,6 +24,8 @@ type Fedi struct {
 	// (query-routed servers), so that anything keyed by the path alone confuses them
 	QueryURLs bool
 	cursorN   int
+	// MaxPages, MaxItems: when positive, cap the pages per layout and items per page (wide feeds)
+	MaxPages, MaxItems int
 }
 
 type Doc = map[string]any
@@ -178,7 +180,7 @@ func (f *Fedi) noteItemAt(host string, pathN, tokN int, published time.Time, rem
 	}
 	d := Doc{"id": id, "type": "Note", "name": tok, "content": "<p>body of " + tok + "</p>"}
 	if !published.IsZero() {
-		d["published"] = published.Format(time.RFC3339)
+		d["published"] = fmtPublished(published)
 	}
 	it := CItem{Token: tok, Time: published, Value: d}
 	f.Serve(id, d)
@@ -195,6 +197,9 @@ func (f *Fedi) DrawLayout(host string, mkItem func(remote bool) CItem) *CLayout 
 	l.RootURL = fmt.Sprintf("https://%s/c/%d", host, f.next())
 	itemsFor := func() []CItem {
 		k := t.Weighted(3, 3, 3, 2, 1, 1) // 0..5 items; empty pages are common on purpose
+		if f.MaxItems > 0 && k > f.MaxItems {
+			k = f.MaxItems
+		}
 		var out []CItem
 		for i := 0; i < k; i++ {
 			out = append(out, mkItem(t.Chance(1, 5)))
@@ -212,6 +217,9 @@ func (f *Fedi) DrawLayout(host string, mkItem func(remote bool) CItem) *CLayout 
 	}
 	if l.HasFirst {
 		np := t.Range(0, 6)
+		if f.MaxPages > 0 && np > f.MaxPages {
+			np = f.MaxPages
+		}
 		if np == 0 {
 			l.HasFirst = false
 		}
